@@ -501,3 +501,77 @@ func portfolioCheck(c *Term) satResult {
 }
 
 var portfolioUses int
+
+// chooseOne resolves a choice among mutually exclusive, jointly exhaustive guards: it returns the
+// index of a guard that holds on the continuation of this path and schedules the other feasible
+// ones as alternatives. A solver model picks the candidate, so the cost is two queries per
+// explored alternative instead of one per guard.
+func chooseOne(guards []*Term) int {
+	p := px
+	if p == nil {
+		panic(engineErr("symbolic choice outside a path"))
+	}
+	for k, g := range guards {
+		if g.isTrue() {
+			return k
+		}
+	}
+	var excl []uint64
+	if p.pos < len(p.prefix) {
+		d := p.prefix[p.pos]
+		if d.Kind != 'g' {
+			panic(engineErr(fmt.Sprintf("replay divergence: expected choice, have %c at %d", d.Kind, p.pos)))
+		}
+		p.pos++
+		if !d.Pending {
+			recordDecision(d)
+			assertPC(guards[d.Val])
+			return int(d.Val)
+		}
+		excl = d.Excl
+	} else {
+		p.pos++
+	}
+	isExcl := map[uint64]bool{}
+	cons := termTrue
+	for _, e := range excl {
+		isExcl[e] = true
+		cons = mkAnd(cons, mkNot(guards[e]))
+	}
+	r := solver.Check(cons)
+	if r == resUnsat {
+		panic(pathAbort{"infeasible", false})
+	}
+	if r == resUnknown {
+		panic(pathAbort{"solver unknown during a symbolic choice", true})
+	}
+	var cand []*Term
+	var candIx []int
+	for k, g := range guards {
+		if !isExcl[uint64(k)] && !g.isFalse() {
+			cand = append(cand, g)
+			candIx = append(candIx, k)
+		}
+	}
+	vals := solver.Values(cand)
+	pick := -1
+	for j, v := range vals {
+		if v != 0 {
+			pick = candIx[j]
+			break
+		}
+	}
+	if pick < 0 {
+		panic(engineErr("symbolic choice: guards are not exhaustive"))
+	}
+	if solver.Check(mkAnd(cons, mkNot(guards[pick]))) != resUnsat {
+		alt := make([]decision, len(p.trace), len(p.trace)+1)
+		copy(alt, p.trace)
+		nx := append(append([]uint64{}, excl...), uint64(pick))
+		alt = append(alt, decision{Kind: 'g', Pending: true, Excl: nx})
+		p.newWork = append(p.newWork, alt)
+	}
+	recordDecision(decision{Kind: 'g', Val: uint64(pick)})
+	assertPC(guards[pick])
+	return pick
+}
